@@ -38,7 +38,7 @@ theorem staging_column_encodes {ncols maxrow : Nat} {offs : List Nat} {inds : Li
     {E : List Csv.Bytes} {r : List Nat} (hsh : Shape ncols maxrow offs inds vals) (hc : c < ncols)
     (hcol : ColOK offs inds vals c E) (hr : inds[c]? = some r)
     (hcaps : offAt offs c + E.flatten.length < offAt offs (c + 1)) :
-    Encodes (chunkOf r vals (offAt offs c) (offAt offs (c + 1) - offAt offs c) E.length) E :=
+    Encodes (chunkOf r vals (offAt offs c) (offAt offs (c + 1) - offAt offs c) E.length c inds.length) E :=
   encodes_of_colOK hsh hc hcol hr hcaps _ (by omega)
 
 /-- **importer_append_homomorphism.** `typedF kinds c D` is the importer of column `c` (of kind `kinds c`) after it has
